@@ -55,21 +55,106 @@ let ptr_str path = match ptr_parse3 path with
   | PErr -> "p=PTR:" | PUndef -> "p=UNDEF:"
   | POk ss -> Printf.sprintf "p=0:%d:%s" (List.length ss) (String.concat "," (List.map hex_of_bytes ss))
 
+let rec has_dbl = function
+  | JF64 _ -> true
+  | JArr l -> List.exists has_dbl l
+  | JObj ms -> List.exists (fun (_, x) -> has_dbl x) ms
+  | _ -> false
+let rec has_nul = function
+  | JStr s -> List.exists (fun c -> c = Z0) s
+  | JArr l -> List.exists has_nul l
+  | JObj ms -> List.exists (fun (_, x) -> has_nul x) ms
+  | _ -> false
+
+(* printed texts: "<rc>:<hex>" as the harness prints them *)
+let no_fo _ = []
+let text_str = function
+  | Ok t -> "0:" ^ hex_of_bytes t
+  | Err E_UTF8 -> "PARSE:"
+  | Err _ -> "MODEL-ERR:"
+let btext_str = function
+  | BOk t -> "0:" ^ hex_of_bytes t
+  | BErr (BE_TEXT E_UTF8) -> "PARSE:"
+  | BErr BE_INVALID -> "INV:"
+  | BErr _ -> "MODEL-ERR:"
+let zi n = z_of_int n
+let fuel_of bs = S (nat_of_int (List.length bs))
+
 let pipeline v =
   let enc = binn_encode v in
+  let dbl = has_dbl v in
   let head = match enc with
     | None -> (match v with JObj _ | JArr _ -> "rc=CRE" | _ -> "rc=ARGS")
     | Some bs ->
       let back = match binn_decode bs with Some x -> dumps x | None -> "ERR" in
       let cl = match binn_clone bs with Some x -> hex_of_bytes x | None -> "ERR" in
       let clp = match binn_clone_into_pool bs with Some x -> hex_of_bytes x | None -> "ERR" in
-      Printf.sprintf "rc=0 binn=%s back=%s back0=%s bcl=%s bclp=%s" (hex_of_bytes bs) back back cl clp in
-  head ^ " ncl=" ^ dumps (jbn_clone v)
+      Printf.sprintf "rc=0 binn=%s back=%s back0=%s bcl=%s bclp=%s" (hex_of_bytes bs) back back cl clp ^
+      (if dbl then "" else " jb=" ^ btext_str (jbl_as_json_binn no_fo Z0 bs)) in
+  let guard = match v with
+    | JObj _ | JArr _ when cdom v -> if wf v && fits v then " g=1" else " g=0"
+    | _ -> "" in
+  head ^ " ncl=" ^ dumps (jbn_clone v) ^ (if dbl then "" else " jt=" ^ text_str (as_json no_fo Z0 v)) ^ guard
+
+(* mxc: the value-level consumers of the matrix the model answers: cnt, it, js/jsp (tree: tjs/tjsp, binary: bjs/bjsp) *)
+let matrix_values v =
+  match binn_encode v with
+  | None -> ""
+  | Some bs ->
+    (match root_bval bs with
+     | None -> ""
+     | Some b ->
+       let cnt = Printf.sprintf " cnt=%d:%d" (int_of_z (jbl_type b)) (int_of_z (jbl_count b)) in
+       let it = (match jbl_members b with
+         | None -> " it=ERR-CRE"
+         | Some l ->
+           let obj = (match v with JObj _ -> true | _ -> false) in
+           let buf = Buffer.create 256 in
+           Buffer.add_char buf (if obj then '{' else '[');
+           List.iter (fun ((k, _), bv) ->
+             (match k with Some k -> Buffer.add_char buf 'K'; Buffer.add_string buf (hexraw k); Buffer.add_char buf ';' | None -> ());
+             (match dec_node (fuel_of bs) bv with Some x -> dump buf x | None -> Buffer.add_string buf "ERR")) l;
+           Buffer.add_char buf (if obj then '}' else ']');
+           " it=" ^ Buffer.contents buf) in
+       let texts = if has_dbl v then "" else
+         " tjs=" ^ text_str (as_json no_fo Z0 v) ^ " tjsp=" ^ text_str (as_json no_fo (zi 1) v) ^
+         " bjs=" ^ btext_str (jbl_as_json_binn no_fo Z0 bs) ^ " bjsp=" ^ btext_str (jbl_as_json_binn no_fo (zi 1) bs) in
+       cnt ^ it ^ texts)
+
+(* pr: both printers under the eight flag sets *)
+let pr_flags = [0; 1; 2; 3; 5; 7; 9; 11]
+let print_all v =
+  if has_dbl v then "dbl=1" else
+  let t = String.concat " " (List.map (fun pf -> Printf.sprintf "t%d=%s" pf (text_str (as_json no_fo (zi pf) v))) pr_flags) in
+  match binn_encode v with
+  | None -> (match v with JObj _ | JArr _ -> "rc=CRE " | _ -> "rc=ARGS ") ^ t
+  | Some bs ->
+    "rc=0 " ^ t ^ " " ^
+    String.concat " " (List.map (fun pf -> Printf.sprintf "b%d=%s" pf (btext_str (jbl_as_json_binn no_fo (zi pf) bs))) pr_flags)
+
+(* bget cell of the matrix: jbl_object_get_type / _fill_jbl and the typed getter of the type reported *)
+let gname z = match int_of_z z with 0 -> "0" | 1 -> "NOTOBJ" | 2 -> "CRE" | _ -> "UNMODELLED"
+let bget v bs seg =
+  match root_bval bs with
+  | None -> ""
+  | Some b ->
+    let ty = int_of_z (jbl_object_get_type b seg) in
+    let (rc, bv) = jbl_object_get_fill b seg in
+    let first = Printf.sprintf "%d:%s:" ty (if int_of_z rc = 2 then "NF" else gname rc) ^
+      (match bv with Some bv -> (match dec_node (fuel_of bs) bv with Some x -> dumps x | None -> "ERR") | None -> "") in
+    let typed =
+      if ty = 3 then (let (r, n) = jbl_object_get_i64 b seg in Printf.sprintf "%s:i%s;" (gname r) (string_of_z n))
+      else if ty = 4 then (let (r, d) = jbl_object_get_f64 b seg in Printf.sprintf "%s:d%s" (gname r) (hex16_of_z d))
+      else if ty = 2 then (let (r, t) = jbl_object_get_bool b seg in Printf.sprintf "%s:%c" (gname r) (if t then 't' else 'f'))
+      else if ty = 5 && not (has_nul v) then (let (r, s) = jbl_object_get_str b seg in Printf.sprintf "%s:s%s;" (gname r) (hexraw s))
+      else "" in
+    " bget=" ^ first ^ "+" ^ typed
 
 let handle = function
   | ["conv"; d] -> (try pipeline (parse_dump d) with Bad -> "BAD-DUMP")
   | ["tree"; d] -> (try pipeline (parse_dump d) with Bad -> "BAD-DUMP")
-  | "mxc" :: d :: _ -> (try pipeline (parse_dump d) with Bad -> "BAD-DUMP")
+  | "mxc" :: d :: _ -> (try let v = parse_dump d in pipeline v ^ matrix_values v with Bad -> "BAD-DUMP")
+  | ["pr"; d] -> (try print_all (parse_dump d) with Bad -> "BAD-DUMP")
   | ["at"; d; ph] | "mx" :: d :: ph :: _ ->
     (try
       let v = parse_dump d in
@@ -81,7 +166,10 @@ let handle = function
         | None -> (match v with JObj _ | JArr _ -> " b=NA-CRE" | _ -> " b=NA-ARGS")
         | Some bs -> " b=" ^ at_str (at_binn bs path) ^
                      (match p3 with POk ss -> " b2=" ^ at_str (at_binn2 bs ss) | _ -> "")) in
-      ptr_str path ^ " t=" ^ at_str t ^ t2 ^ b
+      let bg = (match p3, v, binn_encode v with
+        | POk [seg], JObj _, Some bs -> bget v bs seg
+        | _ -> "") in
+      ptr_str path ^ " t=" ^ at_str t ^ t2 ^ b ^ bg
     with Bad -> "BAD-DUMP")
   | ["dec"; h] ->
     let bs = bytes_of_hex h in
